@@ -151,6 +151,37 @@ async fn rollover_ack_latency(sync_ms: u64) -> Result<(u128, u128), String> {
     Ok((first, second))
 }
 
+/// C19 / U19: a transaction that fits an empty segment, appended when the live segment's free space is within a few bytes of
+/// its stored size, must be accepted (rolling over if needed); a persistent "segment full" is the violation. Returns the error
+/// of the last attempt when all `attempts` failed.
+async fn fit_boundary(compression: bool, events: usize, slack: i64, attempts: usize) -> Result<Option<String>, String> {
+    let dir = tempfile::tempdir().map_err(|e| e.to_string())?;
+    let seg: usize = 128 * 1024;
+    let mut b = DatabaseBuilder::new();
+    b.segment_size_bytes(seg).total_buckets(1).bucket_ids_from_range(0..1).compression(compression);
+    let db = b.open(dir.path()).map_err(|e| e.to_string())?;
+    let key = Uuid::from_u128(0x1234_5678_9abc_def0_1122_3344_5566_7788);
+    let hash = uuid_to_partition_hash(key);
+    let noise = |n: u64, len: usize| -> Vec<u8> { let mut x: u64 = 0x9E37_79B9_7F4A_7C15 ^ n; (0..len).map(|_| { x ^= x << 13; x ^= x >> 7; x ^= x << 17; (x >> 24) as u8 }).collect() };
+    let ev = |n: u64, len: usize| NewEvent { event_id: uuid_v7_with_partition_hash(hash), stream_id: StreamId::new("big").unwrap(), stream_version: ExpectedVersion::Any, event_name: "e".into(), timestamp: 1, metadata: vec![], payload: noise(n, len) };
+    let mut first = smallvec::SmallVec::<[NewEvent; 4]>::new();
+    first.push(ev(1, 70 * 1024));
+    db.append_events(Transaction::new(key, 0, first).unwrap()).await.map_err(|e| e.to_string())?;
+    // uncompressed stored sizes (record format): event = 93 + |stream id| + |event name| + |metadata| + |payload|, commit = 37
+    let per_event = 93 + 3 + 1;
+    let used = 48 + per_event + 70 * 1024;
+    let overhead = events * per_event + if events > 1 { 37 } else { 0 };
+    let total_payload = seg as i64 - used as i64 - overhead as i64 - slack;
+    if total_payload < events as i64 { return Ok(None); }
+    let mut last = None;
+    for _ in 0..attempts {
+        let mut evs = smallvec::SmallVec::<[NewEvent; 4]>::new();
+        for k in 0..events { let len = total_payload as usize / events + if k == 0 { total_payload as usize % events } else { 0 }; evs.push(ev(10 + k as u64, len)); }
+        match db.append_events(Transaction::new(key, 0, evs).unwrap()).await { Ok(_) => return Ok(None), Err(e) => last = Some(e.to_string()) }
+    }
+    Ok(last)
+}
+
 fn txs_of(v: &Value) -> Vec<Vec<(String, String)>> {
     v.as_array().map(|a| a.iter().map(|t| t.as_array().map(|es| es.iter().map(|e| (e[0].as_str().unwrap_or("s").to_string(), e[1].as_str().unwrap_or("any").to_string())).collect()).unwrap_or_default()).collect()).unwrap_or_default()
 }
@@ -163,6 +194,13 @@ pub fn search(item: &str, seed: u64, _hint: &Value) -> Option<(Value, String)> {
         if let Ok(Ok((first, second))) = guarded(|| block_on(rollover_ack_latency(1500))) {
             if second * 4 < first { return Some((json!({"kind": "rollover_ack", "sync_ms": 1500}), format!("with a 1500 ms sync interval the first append was acknowledged after {first} ms (it waited for the periodic fsync) but the append that rolled the segment over was acknowledged after {second} ms: it was released by the sealed segment's watermark before its own fsync"))); }
         }
+    }
+    if item.contains("append_space") || item.contains("Writer::append") || item.contains("prepare_data") {
+        for compression in [true, false] { for events in [1usize, 2] { for slack in -8i64..48 {
+            if let Ok(Ok(Some(err))) = guarded(|| block_on(fit_boundary(compression, events, slack, 3))) {
+                return Some((json!({"kind": "fit_boundary", "compression": compression, "events": events, "slack": slack}), format!("128 KiB segment, compression {compression}: after one 70 KiB event a transaction of {events} incompressible event(s) whose uncompressed records end {slack} bytes before the segment end (it fits an empty segment) failed on each of 3 attempts: {err}")));
+            }
+        }}}
     }
     let mk = |txs: &Vec<Vec<(String, String)>>, seg: usize, reopen: bool| json!({"txs": txs.iter().map(|t| t.iter().map(|(s, e)| json!([s, e])).collect::<Vec<_>>()).collect::<Vec<_>>(), "segment": seg, "reopen": reopen});
     let mut scripts: Vec<(Vec<Vec<(String, String)>>, usize, bool)> = vec![];
@@ -188,6 +226,12 @@ pub fn run(_item: &str, input: &Value) -> Option<String> {
     if input["kind"].as_str() == Some("rollover_ack") {
         return match guarded(|| block_on(rollover_ack_latency(input["sync_ms"].as_u64().unwrap_or(1500)))) {
             Ok(Ok((first, second))) if second * 4 < first => Some(format!("first append acknowledged after {first} ms (periodic fsync), the append that rolled the segment over after {second} ms: acknowledged before its fsync")),
+            _ => None,
+        };
+    }
+    if input["kind"].as_str() == Some("fit_boundary") {
+        return match guarded(|| block_on(fit_boundary(input["compression"].as_bool().unwrap_or(true), input["events"].as_u64().unwrap_or(1) as usize, input["slack"].as_i64().unwrap_or(0), 3))) {
+            Ok(Ok(Some(err))) => Some(format!("a transaction that fits an empty segment failed on each of 3 attempts: {err}")),
             _ => None,
         };
     }
